@@ -174,6 +174,12 @@ func progReplay(v ProgVerdict, extra map[string]string) func() findings.Replay {
 // the program; it is counted (TransientKills) and an empty verdict is returned, which the callers drop.
 var TransientKills int64
 
+// HistoryDependent counts failing cases whose re-run gave another observation BECAUSE the transpiler emitted another
+// script for the same sources (its answer depends on what the process transpiled before - the subject of C14, which
+// explores call histories). Such a case is neither reported here nor a harness error: it is counted and dropped, so
+// that the cases which fail repeatably are still judged.
+var HistoryDependent int64
+
 func confirm(prog *tsmodel.Prog, o ProgOpts, first ProgVerdict) ProgVerdict {
 	if first.Symptom == "runaway" {
 		a, b := JudgeBash(prog, o), JudgeBash(prog, o)
@@ -187,6 +193,10 @@ func confirm(prog *tsmodel.Prog, o ProgOpts, first ProgVerdict) ProgVerdict {
 		same := again.Symptom == first.Symptom
 		if same && first.Symptom != "runaway" { // a killed run is cut at an arbitrary point
 			same = again.Got.Stdout == first.Got.Stdout && again.Got.Exit == first.Got.Exit
+		}
+		if !same && again.Script != first.Script {
+			atomic.AddInt64(&HistoryDependent, 1)
+			return ProgVerdict{}
 		}
 		if !same {
 			fmt.Fprintf(os.Stderr, "HARNESS ERROR: replay of a failing case did not reproduce the same observation\nsource:\n%s\nfirst: %s %s\nagain: %s %s\n",
@@ -212,5 +222,9 @@ func getenv(k string) string { return os.Getenv(k) }
 // finish adds the harness-level counters to the evidence and ends the run.
 func finish(r *findings.Run) int {
 	r.Set("sandbox_kills_that_did_not_repeat", int(atomic.LoadInt64(&TransientKills)))
+	if n := atomic.LoadInt64(&HistoryDependent); n > 0 {
+		r.Set("failing_cases_dropped_because_the_transpiler_emitted_another_script_on_the_rerun", int(n))
+		fmt.Printf("note: %d failing cases were not reported: on the re-run the transpiler emitted another script for the same sources (history dependence is C14's subject)\n", n)
+	}
 	return r.Finish()
 }
